@@ -197,7 +197,11 @@ def e2e_params(r, tier, i):
     steps = r.choice([15, 30, 60, 120]) if tier == "quick" else r.choice([20, 60, 150, 400])
     k = r.random()
     stale = "none" if k < 0.62 else "A" if k < 0.75 else "B" if k < 0.88 else "AB"
-    return model, ncpus, nth, min(nprocs, nth), steps, stale
+    nprocs = min(nprocs, nth)
+    # a third of the two-process histories spread over two looms (the breakdown counts and orders the physical
+    # CPUs of ALL looms: seeded C20-7 counted ncpus - 1 instead of ncpus - nlooms)
+    split = r.randrange(1, ncpus) if (nprocs == 2 and ncpus >= 2 and r.random() < 0.6) else 0
+    return model, ncpus, nth, nprocs, steps, stale, split
 
 
 def fixed_histories():
@@ -537,11 +541,15 @@ def check(res, tier, replay=None):
                         res.cov.setdefault("notes", []).append(f"{name}: finding {want} not reproduced on this tree")
                 ncase = 1500 if tier == "quick" else 20000
                 for i in range(ncase):
-                    model, ncpus, nth, nprocs, steps, stale = e2e_params(r, tier, i)
-                    g = L.Gen(r, model, mts[model], consts[model], ncpus, nth, nprocs, steps, stale, res)
+                    model, ncpus, nth, nprocs, steps, stale, split = e2e_params(r, tier, i)
+                    g = L.Gen(r, model, mts[model], consts[model], ncpus, nth, nprocs, steps, stale, res, split=split)
+                    res.dist("e2e:looms:%d" % (2 if g.split else 1))
                     g.run()
                     label = f"case {i} model={model} cpus={ncpus} threads={nth} procs={nprocs} steps={steps} stale={stale}"
-                    case = L.Case.of_gen(g, label=label)
+                    if g.split and len({g.loom_of(th.proc) for th in g.threads if th.nev > 0}) < 2:
+                        res.dist("e2e:looms:second-loom-empty-skipped")
+                        continue        # a loom without a stream does not exist in the trace
+                    case = L.Case.of_gen(g, label=label + (" split=%d" % g.split if g.split else ""))
                     probs = run_case(prep, d, case, mts[model], consts[model], res)
                     res.case(case.text(), nontrivial=len(g.hist) > 2)
                     res.dist("e2e:model:" + model)
